@@ -857,6 +857,10 @@ def reader_progress(ctx, R2, rv):
         if (f"{msg_n} is None", True) not in fs:
             continue
         stalled = (f"{len_n} > 0", False) in fs or (f"{len_n} == 0", True) in fs or (buf, False) in fs or (f"len({buf}) == 0", True) in fs
+        # in general: the tests passed on the way to the break (flag locals read through their definition) cannot all hold
+        # together with "bytes were consumed AND the buffer is not empty"
+        if not stalled:
+            stalled = not _satisfiable_with_progress(fn, gs, len_n, buf)
         # `if progress and buffer: continue` before the break
         cont_guard = False
         for n in g.nodes:
@@ -869,6 +873,50 @@ def reader_progress(ctx, R2, rv):
         ctx.instance(R2, "socket_read_task[leaves the decode loop only without progress]", stalled or cont_guard,
                      "the decode loop breaks on 'no message' although bytes were consumed: valid frames queued behind a skipped bad frame wait for the next socket read",
                      loc(b.ast))
+
+
+def _satisfiable_with_progress(fn, guards_, len_n, buf):
+    """Can every (test, branch) in guards_ hold while `len_n > 0` and the buffer is non-empty?  Propositional check: the two
+    progress atoms are fixed to True in all their spellings, every other atom is free (enumerated)."""
+    import itertools
+    from sa.guards import resolved
+    P = {f"{len_n} > 0": True, f"{len_n} != 0": True, f"{len_n} >= 1": True, f"0 < {len_n}": True, len_n: True,
+         f"{len_n} == 0": False, f"{len_n} <= 0": False, f"{len_n} < 1": False}
+    Q = {buf: True, f"len({buf}) > 0": True, f"len({buf}) != 0": True, f"bool({buf})": True, f"len({buf})": True, f"0 < len({buf})": True,
+         f"len({buf}) == 0": False, f"not {buf}": False, f"{buf} == b''": False, f"{buf} != b''": True}
+    fixed = dict(P)
+    fixed.update(Q)
+    tests = [(resolved(fn, t), lab == "true") for t, lab in guards_ if lab in ("true", "false")]
+    free = []
+
+    def atoms(e):
+        if isinstance(e, ast.BoolOp):
+            for v in e.values:
+                atoms(v)
+        elif isinstance(e, ast.UnaryOp) and isinstance(e.op, ast.Not):
+            atoms(e.operand)
+        else:
+            t = unparse(e)
+            if t not in fixed and t not in free:
+                free.append(t)
+    for t, _ in tests:
+        atoms(t)
+    if len(free) > 10:
+        return True
+
+    def ev(e, asg):
+        if isinstance(e, ast.BoolOp):
+            vals = [ev(v, asg) for v in e.values]
+            return all(vals) if isinstance(e.op, ast.And) else any(vals)
+        if isinstance(e, ast.UnaryOp) and isinstance(e.op, ast.Not):
+            return not ev(e.operand, asg)
+        t = unparse(e)
+        return fixed[t] if t in fixed else asg[t]
+    for combo in itertools.product((True, False), repeat=len(free)):
+        asg = dict(zip(free, combo))
+        if all(ev(t, asg) == want for t, want in tests):
+            return True
+    return False
 
 
 def reader_handler_advances(rv):
